@@ -22,11 +22,13 @@ func profileByName(name string) Profile {
 		p.PMidInvoke = 0.4
 	case "keys":
 		p.Types = []int{tAny, 0, 1, 3, 8, 19}
-		p.Names = []string{"", "n1", "q\"x"}
-		p.Groups = []string{"g1", "g2", "n1"}
+		// names and groups that differ only in case or surrounding blanks are different keys
+		p.Names = []string{"", "n1", "q\"x", "n1 ", "N1"}
+		p.Groups = []string{"g1", "g2", "n1", "g1 ", " g1", "G1"}
 		p.PNamed, p.PAs, p.PDup, p.PGroupRes, p.PGroupPar = 0.6, 0.3, 0.2, 0.3, 0.3
 	case "groups":
 		p.PGroupRes, p.PGroupPar, p.PSoft, p.PFlatten, p.PDecorate = 0.5, 0.5, 0.12, 0.4, 0.1
+		p.Types = []int{0, tSliceV, 1, 2} // group keys use the first two types; VS: members of slice kind, nil ones included
 		p.MaxScopes, p.PExport = 5, 0.3
 		p.PAs = 0.15
 		p.PMidInvoke = 0.4
@@ -79,30 +81,39 @@ func profileByName(name string) Profile {
 		p.PSoft, p.PFault, p.MaxScopes, p.PLateScope, p.PMidInvoke, p.PInvalid = 0, 0, 5, 0.5, 0.4, 0
 		p.PDefer = 0.3
 		p.PBackEdge = 0.04
+	case "orderdeco":
+		p.PSoft, p.PFault, p.MaxScopes, p.PLateScope, p.PMidInvoke, p.PInvalid = 0, 0, 4, 0.5, 0.3, 0
+		p.PDefer, p.PBackEdge = 0.3, 0.02
+		p.PDecorate, p.PGroupDec, p.PGroupRes, p.PGroupPar, p.PExport = 0.6, 0.75, 0.5, 0.5, 0.35
+		p.Types = []int{0}
+		p.MinFns, p.MaxFns, p.PNamed, p.PFlatten, p.POptional, p.PNested, p.PVariadic = 4, 7, 0.05, 0.1, 0.05, 0.1, 0
 	case "dry":
 		p.PFault, p.MaxScopes, p.PInvalid, p.PDup, p.PBackEdge, p.PInfo, p.PVisualize = 0, 5, 0.15, 0.1, 0.15, 0.3, 0.1
 	case "info":
 		p.PInfo, p.PNested, p.PAs, p.PVariadic, p.PInvalid, p.PDup = 0.9, 0.6, 0.2, 0.3, 0.15, 0.1
+		p.PLocPC = 0.15
 	case "callbacks":
 		p.PCallback, p.PFault, p.InvokeFaults, p.PDecorate = 0.7, 0.3, true, 0.4
 		p.PDigErr = 0.2
+		p.PLocPC = 0.15
 		p.PGap = 0.1
 		p.Invokes = [2]int{4, 10}
 	case "viz":
 		p.PVisualize, p.PGroupRes, p.PGroupPar = 0.5, 0.3, 0.3
-		p.MaxScopes = 6 // bushy trees: every scope's constructors must be in the picture
-		p.Names = []string{"", "n1", "a<b&c"}
+		p.MaxScopes = 6                                  // bushy trees: every scope's constructors must be in the picture
+		p.Names = []string{"", "n1", "a<b&c", "b\\s\tt"} // backslash and tab: what Go's quoting and DOT's disagree on
 		p.Groups = []string{"g1", "g<3>"}
 		p.PInvalid, p.PDup = 0.15, 0.1
 	case "vizerr":
 		// pictures of failures of every origin: constructors, decorators, group decorators, missing types
 		p.PVisualize, p.PFault, p.InvokeFaults, p.PDecorate, p.PGroupDec = 0.6, 0.35, true, 0.7, 0.5
 		p.PGroupRes, p.PGroupPar, p.PGap, p.PMidInvoke = 0.4, 0.4, 0.12, 0.5
-		p.Names = []string{"", "n1", "a<b&c"}
-		p.Groups = []string{"g1", "g<3>"}
+		p.Names = []string{"", "n1", "a<b&c", "b\\s\tt"}
+		p.Groups = []string{"g1", "g<3>", "g\\4"}
 		p.Invokes = [2]int{3, 8}
 	case "pviz":
 		p.PVisualize, p.PFault, p.PDecorate, p.MinFns, p.MaxFns, p.MaxScopes = 0.6, 0.25, 0.05, 2, 9, 6
+		p.PLocPC = 0.1
 		p.Names = []string{"", "n1", "a<b"}
 		p.Groups = []string{"g1", "g<2>"}
 		p.PGap, p.PMidInvoke, p.PDefer = 0.15, 0.3, 0.1
@@ -114,11 +125,13 @@ func profileByName(name string) Profile {
 		p.Invokes = [2]int{2, 6}
 	case "pcallbacks":
 		p.PCallback, p.PFault, p.InvokeFaults, p.PDecorate, p.MinFns, p.MaxFns = 0.7, 0.3, true, 0.3, 2, 9
+		p.PLocPC = 0.15
 		p.Names = []string{"", "n1", "a<b"}
 		p.Groups = []string{"g1", "g<2>"}
 		p.Invokes = [2]int{3, 8}
 	case "pinfo":
 		p.PInfo, p.PDecorate, p.MinFns, p.MaxFns = 0.9, 0.3, 2, 9
+		p.PLocPC = 0.15
 		p.Names = []string{"", "n1", "a<b"}
 		p.Groups = []string{"g1", "g<2>"}
 	}
@@ -155,7 +168,7 @@ func jobsFor(prop, tier string) []JobSpec {
 		// hist:faultssoft: what a FAILED constructor returned must never show up in a soft group later
 		return []JobSpec{{"hist:soft", n(50000, 2500000)}, {"hist:faultssoft", n(15000, 700000)}}
 	case "C12":
-		return []JobSpec{{"hist:decor", n(40000, 2000000)}, {"hist:faultsdecor", n(10000, 500000)}}
+		return []JobSpec{{"hist:decor", n(40000, 2000000)}, {"hist:faultsdecor", n(10000, 500000)}, {"hist:decoblock", n(10000, 500000)}}
 	case "C13":
 		return []JobSpec{{"faultenum:faultbase", n(250*faultSlots, 10000*faultSlots)}, {"hist:faults", n(15000, 700000)}, {"hist:rejects", n(25000, 1200000)}}
 	case "C18":
